@@ -10,7 +10,7 @@
    Ghost marker 1804 = loose mode on an IPv6 frame: the C has no IPv6 range check.
    (1803 was: loose mode with a valid IPv4 binding never reached the range check - repaired in /repo.) *)
 From Coq Require Import NArith List Bool.
-From Verif Require Import Base.Word Model.TcQos.
+From Verif Require Import Base.Word Model.TcQos Model.TcAntispoofC.
 Import ListNotations.
 Local Open Scope N_scope.
 
@@ -21,8 +21,11 @@ Definition MODE_LOG_ONLY : N := 3.
 
 Record amaps := { a_cfg : option bytes; a_bind : kvmap; a_ranges : list (N * bytes) }.
 
-(* mac_to_u64 then the 8 key bytes as stored in memory (little-endian u64) *)
-Definition mac_key (mac : bytes) : bytes := rev mac ++ [0; 0].
+(* __u64 mac_key = mac_to_u64(eth->h_source); bpf_map_lookup_elem(&subscriber_bindings, &mac_key): the C
+   expression evaluated with the C types of its intermediate values (Model/TcAntispoofC.v: every octet is cast to
+   __u64 before it is shifted), then the 8 bytes of the __u64 in memory.  That this equals the key the Go
+   manager writes, for every MAC, is a theorem (Proofs/TcAntispoofCProofs.v), not a definition. *)
+Definition mac_key (mac : bytes) : bytes := c_mac_key mac.
 
 (* first n bits of a and b agree (bytes, MSB first) *)
 Fixpoint bits_match (n : nat) (a b : bytes) : bool :=
